@@ -257,6 +257,21 @@ def check_fit(c):
                     ok, Z = _call(res, case, 'anova', lambda: teneva.anova(I_trn, y_trn, r, order, noise, seed=1), tg)
                     if ok:
                         validate(res, case, Z, shape, 'anova', tg)
+        # sparse repeated samples: every index of every mode occurs, but most index pairs never occur together
+        nmax = max(shape)
+        I_diag = np.array([[j % n for n in shape] for j in range(nmax)] * 3)
+        y_diag = T[tuple(I_diag.T)]
+        for order in (1, 2):
+            for r in (2, 3):
+                case = dict(base, routine='anova.sparse', order=order, r=r)
+                ok, Z = _call(res, case, 'anova', lambda: teneva.anova(I_diag, y_diag, r, order, 1e-10, seed=1), tg)
+                if ok:
+                    validate(res, case, Z, shape, 'anova', tg)
+        case = dict(base, routine='als.sparse')
+        ok, Z = _call(res, case, 'als', lambda: teneva.als(I_diag, y_diag, space.tt(shape, [1] + [2] * (d - 1) + [1], 'gen', seed, tag=32),
+                                                          nswp=2, info={}, lamb=1e-3), tg)
+        if ok:
+            validate(res, case, Z, shape, 'als', tg)
         # single repeated sample: the observed domain has size 1 in every mode
         I_one = np.array([[0] * d] * 3)
         y_one = np.array([T[(0,) * d]] * 3)
